@@ -447,6 +447,9 @@ impl EpUniverse {
         let ks: Vec<Sq> = vec![0, 3, 4, 7, 16, 19, 20, 23, 24, 27, 28, 31, 32, 35, 36, 39, 40, 44, 56, 60];
         EpUniverse { king_squares: ks, extra_kinds: vec![(Kind::R, false), (Kind::B, false)] }
     }
+    pub fn small() -> EpUniverse {
+        EpUniverse { king_squares: vec![4, 24, 27, 31, 36, 60], extra_kinds: vec![(Kind::R, false), (Kind::B, false)] }
+    }
     pub fn full() -> EpUniverse {
         EpUniverse {
             king_squares: (0..64).collect(),
